@@ -33,6 +33,7 @@ GLOBAL_ASSUMPTIONS = [
 BOUNDED = [
     dict(prefix=('ml_pipeline_engine/dag_builders/annotation/builder.py::',), script='bounded/builder.py', props=('C15', 'C16', 'C17')),
     dict(prefix=('ml_pipeline_engine/artifact_store/',), script='bounded/fsstore.py', props=('C18',)),
+    dict(prefix=('ml_pipeline_viewer/',), script='bounded/viewer.py', props=('C20',)),
     dict(prefix=('ml_pipeline_engine/dag/manager.py::', 'ml_pipeline_engine/dag/storage.py::', 'ml_pipeline_engine/dag/dag.py::',
                  'ml_pipeline_engine/dag/retrying.py::', 'ml_pipeline_engine/context/dag.py::', 'ml_pipeline_engine/node/node.py::',
                  'ml_pipeline_engine/chart.py::', 'ml_pipeline_engine/dag/graph.py::'),
